@@ -22,16 +22,20 @@ def base_program():
     return {
         "funcs": [mkfunc("f", calls=[call("g"), call("h"), call("k")], reads=["G", "GL", "cfg.X", "cfg.Z"], rich=False),
                   mkfunc("g", reads=["G", "GV"], rich=False),
-                  mkfunc("h", kind="plain", reads=["GL", "HV"], rich=False)],
+                  mkfunc("h", kind="plain", reads=["GL", "HV"], rich=False),
+                  # reference cycles: r refers to itself, p and q to each other (only versions are asked, nothing is called)
+                  mkfunc("r", calls=[call("r")], rich=False),
+                  mkfunc("p", calls=[call("q")], rich=False), mkfunc("q", calls=[call("p")], rich=False)],
         "vars": {"G": 5, "GL": [1, 2], "HV": 1, "GV": 1},
         "classes": {"C1": {"X": 10}, "C2": {"X": 20}},
         "bindings": {"cfg": "C1"},
-        "order": ["f", "g", "h", "k"],
+        "order": ["f", "g", "h", "k", "r", "p", "q"],
         "late": ["k"],
     }
 
 
-EVENTS = ["redef_f", "redef_g", "redef_h", "redef_h_default", "redef_h_kwdefault", "rebind_G", "rebind_HV", "rebind_GV", "mutate_GL", "def_k_helper", "def_k_var", "toggle_g_kind",
+QUERIED = ("f", "g", "r", "p", "q")
+EVENTS = ["redef_f", "redef_g", "redef_h", "redef_r", "redef_q", "redef_h_default", "redef_h_kwdefault", "rebind_G", "rebind_HV", "rebind_GV", "mutate_GL", "def_k_helper", "def_k_var", "toggle_g_kind",
           "rebind_cfg", "def_attr_Z", "clone_f", "wrap_f", "query_f", "query_g"]
 
 
@@ -39,7 +43,7 @@ def apply_to_ast(P, ev):
     """Program text after the event (None if the event does not change the text)."""
     Q = copy.deepcopy(P)
     fm = {f["name"]: f for f in Q["funcs"]}
-    if ev in ("redef_f", "redef_g", "redef_h"):
+    if ev in ("redef_f", "redef_g", "redef_h", "redef_r", "redef_q"):
         f = fm[ev[-1]]
         f["lit"] = 8 if f["lit"] == 7 else 7
     elif ev == "redef_h_default":  # same body, same position, another positional default
@@ -129,7 +133,7 @@ def internal_state(a, objs):
     MF = m.MementoFunction
     out = []
     gen = MF._global_fn_generation
-    cands = [("f", getattr(a, "f", None)), ("g", getattr(a, "g", None))] + [(k, o) for k, o, _ in objs if o is not None]
+    cands = [(n, getattr(a, n, None)) for n in QUERIED] + [(k, o) for k, o, _ in objs if o is not None]
     for name, o in cands:
         if not isinstance(o, MF):
             out.append((name, "not-memento"))
@@ -161,7 +165,7 @@ def _child(history, root):
     canon = internal_state(a, objs)
     final = {}
     ep = objs_epoch(objs)
-    for name in ("f", "g"):
+    for name in QUERIED:
         o = getattr(a, name, None)
         if hasattr(o, "version"):
             try:
@@ -195,7 +199,7 @@ def fresh_versions(P, top):
         except ValueError:
             pass
     root = os.path.join(top, "oracle_" + key)
-    r = farm.run_xproc(P, root, os.path.join(root, "store"), [], False, ["f", "g"])
+    r = farm.run_xproc(P, root, os.path.join(root, "store"), [], False, list(QUERIED))
     rm(root)
     _oracle[key] = r["versions"]
     tmp = path + ".%d" % os.getpid()
@@ -260,7 +264,7 @@ def run(ctx):
     thorough = ctx.tier == "thorough"
     depth = 4 if thorough else 3
     ctx.rule = ("BFS to depth %d over in-process events %s on a live module (f -> g memento, f -> h plain, f -> k late symbol, "
-                "globals G / GL, dotted cfg.X); after every transition all versions (f, g, clones and unregistered wrappers "
+                "globals G / GL, dotted cfg.X, self-recursive r, mutually recursive p <-> q); after every transition all versions (f, g, clones and unregistered wrappers "
                 "of the current code of f) are compared with a fresh process importing the resulting program text; one "
                 "history per canonical (program text, version-cache state, hash-rule state); distinct = canonical states."
                 % (depth, EVENTS))
